@@ -40,6 +40,7 @@ PROPS = {
         "parts": [
             {"engine": "log", "test": "TestVF_C20", "quick": (2, 10000), "thorough": (16, 100000)},
             {"engine": "log", "test": "TestVF_C20_Periodic", "quick": (1, 2000), "thorough": (8, 20000)},
+            {"engine": "mp", "test": "TestVF_C20_Recorder", "quick": (1, 100), "thorough": (4, 1000)},
             {"engine": "log", "test": "TestVF_C20_Exhaustive", "kind": "plain", "tiers": ["thorough"]},
         ],
     },
@@ -61,7 +62,8 @@ PROPS = {
                       {"engine": "e2e", "test": "TestVF_C13_Socket", "quick": (4, 25), "thorough": (16, 400), "shrinktime": "10s"}]},
     "C14": {"level": "exploration", "assumptions": BASE_ASSUME + ["camera descriptions are encoded with the same yaml.v1 Marshal call as cmd/leptond's sendCameraSpecs (which itself needs camera hardware); strings are single-line valid UTF-8"],
             "parts": [{"engine": "hdr", "test": "TestVF_C14_Header", "quick": (4, 2500), "thorough": (16, 50000)},
-                      {"engine": "e2e", "test": "TestVF_C14_Socket", "quick": (4, 25), "thorough": (16, 400), "shrinktime": "10s"}]},
+                      {"engine": "e2e", "test": "TestVF_C14_Socket", "quick": (4, 25), "thorough": (16, 400), "shrinktime": "10s"},
+                      {"engine": "lpd", "test": "TestVF_C14_Leptond", "kind": "plain"}]},
     "C15": {"level": "exploration", "assumptions": BASE_ASSUME + ["background and threshold are read in-package from the detector; threshold tolerance +-1 for float accumulation"],
             "parts": [{"engine": "mp", "test": "TestVF_C15", "quick": (4, 1500), "thorough": (16, 40000)}]},
     "C10": {"level": "fault_enumeration", "assumptions": BASE_ASSUME + ["process kill only (as the property says); a kill on entering a file-system system call of the handleConn thread leaves exactly the on-disk state a concurrent observer could see at that instant", "strace (ptrace) is available; crash points are numbered on a reference run of the same stream and verified per run (misaligned runs are skipped and counted)", "the constant-recordings sub-directory is judged only by 'every .cptv decodes'; the start-up clean-up covers the top-level output directory"],
